@@ -1049,6 +1049,29 @@ pub fn c11(g: &mut Gen) {
             g.push(format!("net {} predict {}", netf.token(), qt(&Tensor::single(vec![0.75, -0.5]))), Tol::Tight, &format!("many-loops/{}/L{}", acc, loops), true);
         }
     }
+    // tiny activations (all within 1e-5 of each other and of zero, and still different values) and a block close to a fixed
+    // point, under every accumulation incl. overwrite: repetitions that are nearly equal are not interchangeable
+    for acc in ACCS.iter() {
+        for (loops, i, o) in [(2usize, true, false), (3, false, true), (3, true, true), (2, false, true)] {
+            // (a scaled permutation: every output is ONE product, nothing is summed inside a repetition)
+            let w = Tensor::double(vec![vec![0.0, -0.5, 0.0], vec![0.0, 0.0, 2.0], vec![0.25, 0.0, 0.0]]);
+            let flat = InnerSpec::Dense { out: 3, act: "linear".into(), bias: false, dropout: None, w, b: None };
+            let netf = NetSpec { input: Shape::Single(3), builds: vec![Build::Feedback { inner: vec![flat], loops, inskips: i, outskips: o, acc: acc.to_string() }],
+                skipacc: "add".into(), loopacc: "mean".into(), opt: None, obj: "mse".into(), clamp: None };
+            for x in [vec![2e-6f32, -1e-6, 3e-6], vec![1e-9, 2e-9, -1e-9], vec![0.5, -0.25, 0.125]] {
+                g.push(format!("net {} predict {}", netf.token(), qt(&Tensor::single(x))), if *acc == "overwrite" { Tol::Exact } else { Tol::Tight },
+                    &format!("tiny-activations/{}/in{}out{}", acc, i as u8, o as u8), true);
+            }
+            // nearly the identity: successive repetitions differ by a few 1e-7 relative
+            let near = Tensor::double(vec![vec![1.0, 1e-6, 0.0], vec![0.0, 1.0, -1e-6], vec![2e-6, 0.0, 1.0]]);
+            let nf = InnerSpec::Dense { out: 3, act: "linear".into(), bias: false, dropout: None, w: near, b: None };
+            let netn = NetSpec { input: Shape::Single(3), builds: vec![Build::Feedback { inner: vec![nf], loops, inskips: i, outskips: o, acc: acc.to_string() }],
+                skipacc: "add".into(), loopacc: "mean".into(), opt: None, obj: "mse".into(), clamp: None };
+            g.push(format!("net {} predict {}", netn.token(), qt(&Tensor::single(vec![0.75, -0.5, 0.25]))),
+                // (bit for bit where nothing is summed across repetitions: overwrite selects; every row has two non-zero terms)
+                if *acc == "overwrite" { Tol::Exact } else { Tol::Tight }, &format!("near-fixed-point/{}/in{}out{}", acc, i as u8, o as u8), true);
+        }
+    }
     // multiplicative accumulation at the edge of the number range: a repetition that overflows to infinity times a
     // zero of the block input is NaN, not zero (element-wise IEEE arithmetic in the accumulation, also at rank 3)
     {
@@ -1197,6 +1220,19 @@ pub fn c10(g: &mut Gen) {
                     g.push(format!("net {} learn 2 {} {} 0 1 {} 0", net.token(), moving, still, e), Tol::Loose, &format!("learn/zero-gradient-step/{}/{}/L{}", o.kind(), acc, loops), true);
                 }
             }
+        }
+    }
+    // block weights that are exactly zero (and stay zero: the inputs are zero too) while the biases move, and copies whose
+    // stepped values cancel under the coupling: an accumulated value that is exactly zero is written back like any other
+    for acc in ["add", "mean", "mul", "sub"] {
+        for loops in [2usize, 3] {
+            let inner = InnerSpec::Dense { out: 2, act: "linear".into(), bias: true, dropout: None, w: Tensor::double(vec![vec![0.0, 0.0], vec![0.0, 0.0]]), b: Some(Tensor::single(vec![0.0, 0.0])) };
+            let mut net = NetSpec { input: Shape::Single(2), builds: vec![Build::Feedback { inner: vec![inner], loops, inskips: false, outskips: false, acc: acc.into() },
+                Build::Layer(dense_spec(g, &cfg, 2, 1, "linear", true))], skipacc: "add".into(), loopacc: "mean".into(), opt: None, obj: "mse".into(), clamp: None };
+            net.opt = Some(OptSpec::Sgd(0.5, None));
+            let zero = format!("{} {}", qt(&Tensor::single(vec![0.0, 0.0])), qt(&Tensor::single(vec![0.7])));
+            let other = format!("{} {}", qt(&Tensor::single(vec![0.0, 0.0])), qt(&Tensor::single(vec![-0.4])));
+            g.push(format!("net {} learn 2 {} {} 0 1 2 0", net.token(), zero, other), Tol::Loose, &format!("learn/zero-weights/{}/L{}", acc, loops), true);
         }
     }
     // the `overwrite` coupling is not implemented: training such a block is refused
